@@ -81,6 +81,9 @@ func c12History(c *core.Ctx, curve elliptic.Curve, r *core.Rand, tag string) {
 		{b, append(clone(cx), 0)}, {b, nil}, {b, []byte{}}, {b[:w-1], cx}, {append(clone(b), 0), cx}, {b, append([]byte{0}, cx...)},
 		{b, flipBit(cx, 3)}, {flipBit(b, 8*w-1), cx},
 	}
+	for k := 0; k < 3; k++ {
+		pool = append(pool, pair{b, []byte(SpecialStrings[r.IntN(len(SpecialStrings))])})
+	}
 	sks := [][]byte{ScalarBytes(r, N, w), ScalarBytes(r, N, w)}
 	ctxBuf := make([]byte, 0, 64)
 	pkObj := &ecdsa.PublicKey{Curve: curve, X: new(big.Int), Y: new(big.Int)}
